@@ -31,3 +31,6 @@ HX double h_measure(int k, const double* x, int n, double c) {
 HX int h_replay(int seed, int k, int n, int lo, int hi, double* y1, double* y2) {
     H_TRY double t[8]; rng(seed); h_gen(k, n, lo, hi, y1); h_gen((k + 1) % 7, 5, 1, 6, t); h_gen((k + 3) % 7, 3, 1, 6, t); rng(seed); return h_gen(k, n, lo, hi, y2); H_END
 }
+
+// thd with folded (aliased) harmonics: value in dB
+HX double h_thd_aliased(const double* x, int n, int nharm) { return thd(mk_real(x, n), nharm, true).value; }
